@@ -15,7 +15,7 @@ _mutants.apply_from_env()      # sensitivity self-test only (DSIM_MUTANT)
 
 ENGINE = "c18"
 LEVEL = "exploration"
-RULE = ("a case is (|src| 0..12, |dst| 1..8, max_connects 1..6 or inf, evenly on/off, helper, "
+RULE = ("a case is (|src| 0..12 (1 %: 1200-4001 onto 1-3 destinations), |dst| 1..8, max_connects 1..6 or inf, evenly on/off, helper, "
         "scripted random stream: seeded uniform / always lowest / always highest / round robin / "
         "fill one destination then the next); biased to the boundary |src| = |dst|*max_connects; "
         "distinct+non-trivial = distinct case with at least two sources and two destinations")
@@ -86,6 +86,9 @@ def make_case(seed: int, tier: str, prop: str, opts=None) -> Dict[str, Any]:
         ns = rng.randint(0, 12)
     if mc is not None and not evenly:
         ns = min(ns, nd * mc)
+    if rng.random() < 0.01:
+        # many sources onto very few destinations (thousands of rounds of the even distribution)
+        ns, nd, evenly, mc = rng.choice([1200, 2500, 4001]), rng.choice([1, 2, 3]), True, None
     return {"ns": ns, "nd": nd, "max_connects": mc, "evenly": evenly, "helper": helper,
             "iterable": rng.choice(["list", "tuple", "generator"]),
             "mode": rng.choice(MODES), "rseed": rng.randrange(1 << 30),
@@ -208,8 +211,12 @@ def run_case(case, prop) -> Dict[str, Any]:
             if second_ret is None or set(second_ret) != set(counts2):
                 viols.append({"kind": "returned_set_wrong", "features": f2,
                               "detail": {"case": case, "returned": repr(second_ret)[:200]}})
-    d = digest((case, [(repr(c[0]), repr(c[1])) for c in w.calls],
-                [(repr(c[0]), repr(c[1])) for c in (second[0].calls if second else [])], repr(exc)))
+    if isinstance(exc, RecursionError):
+        # (how far a recursion gets depends on the depth of the caller's stack: not part of the case)
+        d = digest((case, "RecursionError"))
+    else:
+        d = digest((case, [(repr(c[0]), repr(c[1])) for c in w.calls],
+                    [(repr(c[0]), repr(c[1])) for c in (second[0].calls if second else [])], repr(exc)))
     for v in viols:
         v["digest"] = d
         v["case"] = case
